@@ -43,7 +43,7 @@ var importMap = map[string]string{
 
 var defaultName = map[string]string{"sync": "sync", "sync/atomic": "atomic", "time": "time", "net": "net"}
 
-var targetPkgs = []string{"pkg/collector", "pkg/exporter", "pkg/intermediate"}
+var targetPkgs = []string{"pkg/collector", "pkg/exporter", "pkg/intermediate", "pkg/entities"}
 
 func fatal(format string, a ...interface{}) {
 	fmt.Fprintf(os.Stderr, "verifgen: "+format+"\n", a...)
